@@ -12,7 +12,7 @@ RULE = ("every undirected graph on n <= 5 (thorough 6) labelled nodes, as a symm
         "linkage at t with the components of the max_edits=t neighbour graph; non-trivial = at least one edge")
 ASSUMPTIONS = ["SciPy linkage/fcluster and igraph community detection are the trusted base named by the property; community variants are only required to stay inside connected components",
                "rapidfuzz cdist workers=-1 answered with one thread"]
-REQUIRED_CLASSES = {"all": ["empty-neighbour-list", "isolated-node", "distance-0-edge", "float-distances", "string-labels", "series-labels", "tcr-table", "single-linkage-identity", "repeated-node-labels", "empty-linkage_kws", "self-matches-in-neighbour-list", "partial-cluster_kws", "missing-node-labels"]}
+REQUIRED_CLASSES = {"all": ["empty-neighbour-list", "isolated-node", "distance-0-edge", "float-distances", "string-labels", "series-labels", "tcr-table", "single-linkage-identity", "repeated-node-labels", "empty-linkage_kws", "self-matches-in-neighbour-list", "partial-cluster_kws", "missing-node-labels", "ward-centroid-linkage", "merge-height-above-largest-distance", "explicit-metric-object"]}
 MIN_OUTCOMES = 10
 SINGLE_THREAD_RAPIDFUZZ = True
 METHODS = ("cc", "fastgreedy", "multilevel", "leiden")
@@ -48,7 +48,13 @@ def spaces(tier):
                     continue
                 yield ("tcr", tab)
 
+    def gen_big():
+        # SciPy's optimal leaf ordering needs minutes for > 5e6 distances: thorough tier only
+        if not q:
+            yield ("hierbig", 3201, "explicit-metric")
+
     return [
+        Space("hierarchical-size-boundary", gen_big, "thorough only: 3201 distinct items (condensed vector of > 5e6 distances) with an explicit Metric object (Euclidean distance of pseudo-random 6-d points), default arguments (average linkage, optimal ordering, t=6)", per_case=True),
         Space("all-graphs", gen_graphs, "every undirected graph on 1..5 labelled nodes (thorough: + a quarter of the 6-node graphs) x 3 triplet forms x 3 label spellings x 4 methods", shards=32),
         Space("neighbour-lists-from-search", gen_nn, "Lists(U(AC,2),4|5) x k in 1..2 x {nearest_neighbor, kdtree hamming (float d), symdel custom float}; includes empty lists and distance-0 duplicates", shards=32),
         Space("hierarchical-all-lists", gen_hier, "Lists(U(AC,2),4|5), N>=2 x linkage in {single, average, complete} x t in 0..3; single-linkage == components identity", shards=64),
@@ -219,6 +225,54 @@ def check_case(case, acc):
                         acc.fail("single-linkage-vs-neighbour-graph-components", ("hier1", case[1], method, t), comps, partition_of(list(r[1])))
                         return
                     acc.ok()
+        # variance-based linkages: merge heights may exceed the largest pairwise distance, so thresholds at and around that
+        # distance separate "everything within t of everything" from "one cluster"
+        acc.cls("ward-centroid-linkage")
+        dmax = float(dist.max()) if len(dist) else 0.0
+        for method in ("ward", "centroid", "weighted"):
+            for t in sorted({1.0, 2.0, dmax, dmax + 0.5, dmax + 1}):
+                lk = dict(method=method)
+                ck = dict(t=t, criterion="distance")
+                r = acc.call(pyrepseq.hierarchical_clustering, seqs, linkage_kws=lk, cluster_kws=ck)
+                eL = hc.linkage(dist, **lk)
+                eC = hc.fcluster(eL, **ck)
+                if raised(r) or not np.array_equal(np.asarray(r[0]), eL) or list(r[1]) != list(eC):
+                    acc.fail("hierarchical_clustering/list/%s" % method, ("hier1", case[1], method, t), {"linkage": eL.tolist(), "cluster": eC.tolist()}, r if raised(r) else {"linkage": np.asarray(r[0]).tolist(), "cluster": list(map(int, r[1]))})
+                    return
+                acc.ok((method, t, tuple(partition_of(list(eC)))), nontrivial=len(set(eC)) < n)
+                if eL[-1, 2] > dmax and len(set(eC)) > 1 and t >= dmax:
+                    acc.cls("merge-height-above-largest-distance")
+        # an explicitly given Metric object (here one whose truth value is False, e.g. a memoising metric with an empty memo)
+        acc.cls("explicit-metric-object")
+        from pyrepseq.metric import Metric
+
+        class FirstLetterLen(Metric):
+            name = "firstletterlen"
+
+            def __len__(self):
+                return 0
+
+            @staticmethod
+            def _d(a, b):
+                return 2 * abs(len(a) - len(b)) + (a[:1] != b[:1])
+
+            def calc_cdist_matrix(self, A, B):
+                return np.array([[self._d(a, b) for b in B] for a in A], dtype=float).reshape(len(A), len(B))
+
+            def calc_pdist_vector(self, X):
+                X = list(X)
+                return np.array([self._d(X[i], X[j]) for i in range(len(X)) for j in range(i + 1, len(X))], dtype=float)
+        mdist = np.array([FirstLetterLen._d(seqs[i], seqs[j]) for i in range(n) for j in range(i + 1, n)], dtype=float)
+        for t in (0, 1, 2):
+            lk = dict(method="complete")
+            ck = dict(t=t, criterion="distance")
+            r = acc.call(pyrepseq.hierarchical_clustering, seqs, metric=FirstLetterLen(), linkage_kws=lk, cluster_kws=ck)
+            eL = hc.linkage(mdist, **lk)
+            eC = hc.fcluster(eL, **ck)
+            if raised(r) or not np.array_equal(np.asarray(r[0]), eL) or list(r[1]) != list(eC):
+                acc.fail("hierarchical_clustering/list/explicit-metric", ("hier1", case[1], "metric", t), {"linkage": eL.tolist(), "cluster": eC.tolist()}, r if raised(r) else {"linkage": np.asarray(r[0]).tolist(), "cluster": list(map(int, r[1]))})
+                return
+            acc.ok()
         # an empty linkage_kws means SciPy's own defaults (single linkage, no optimal ordering)
         acc.cls("empty-linkage_kws")
         for t in (1, 2):
@@ -250,6 +304,60 @@ def check_case(case, acc):
         acc.ok()
     elif kind == "hier1":
         check_case(("hier", case[1]), acc)
+    elif kind == "hierbig":
+        _, n, form = case
+        acc.cls("large-condensed-vector")
+        iu = np.triu_indices(n, 1)
+        if form == "default-metric":
+            # n distinct 8-letter strings; reference distances by a Wagner-Fischer recurrence vectorised over all pairs
+            # (own code, bound to ref_lev on the first 3000 pairs)
+            L = 8
+            codes = np.array([[(k >> (2 * p)) & 3 for p in range(L)] for k in ((i * 20477 + 11) % 65536 for i in range(n))], dtype=np.int8)
+            if len({tuple(c) for c in codes.tolist()}) != n:
+                raise HarnessError("hierbig: strings not distinct")
+            seqs = ["".join("ACDE"[c] for c in row) for row in codes.tolist()]
+            A, B = codes[iu[0]], codes[iu[1]]
+            prev = [np.full(len(A), j, dtype=np.int8) for j in range(L + 1)]
+            for i in range(1, L + 1):
+                cur = [np.full(len(A), i, dtype=np.int8)]
+                for j in range(1, L + 1):
+                    sub = prev[j - 1] + (A[:, i - 1] != B[:, j - 1])
+                    cur.append(np.minimum(np.minimum(prev[j] + 1, cur[j - 1] + 1), sub).astype(np.int8))
+                prev = cur
+            dist = prev[L].astype(float)
+            for k in range(3000):
+                if dist[k] != ref_lev(seqs[iu[0][k]], seqs[iu[1][k]]):
+                    raise HarnessError("hierbig: vectorised reference disagrees with ref_lev")
+            r = acc.call(pyrepseq.hierarchical_clustering, seqs)
+        else:
+            from pyrepseq.metric import Metric
+            v = np.empty(n * 6)
+            st = 12345
+            for k in range(n * 6):
+                st = (st * 1103515245 + 12345) % (2 ** 31)
+                v[k] = st / 2 ** 31
+            P = v.reshape(n, 6)
+            seqs = ["S%04d" % i for i in range(n)]
+
+            class NumberMetric(Metric):
+                name = "points"
+
+                def calc_cdist_matrix(self, A, B):
+                    raise NotImplementedError
+
+                def calc_pdist_vector(self, X):
+                    k = np.array([int(x[1:]) for x in X])
+                    a, b = np.triu_indices(len(k), 1)
+                    return np.sqrt(((P[k[a]] - P[k[b]]) ** 2).sum(1))
+            dist = np.sqrt(((P[iu[0]] - P[iu[1]]) ** 2).sum(1))
+            r = acc.call(pyrepseq.hierarchical_clustering, seqs, metric=NumberMetric())
+        eL = hc.linkage(dist, method="average", optimal_ordering=True)
+        eC = hc.fcluster(eL, t=6, criterion="distance")
+        if raised(r) or not (isinstance(r, tuple) and len(r) == 2) or not np.array_equal(np.asarray(r[0]), eL) or list(r[1]) != list(eC):
+            bad = None if raised(r) else int(np.argmax(np.any(np.asarray(r[0]) != eL, axis=1))) if np.asarray(r[0]).shape == eL.shape else "shape"
+            acc.fail("hierarchical_clustering/size-boundary/%s" % form, case, "SciPy linkage (average, optimal ordering) and fcluster(t=6) of the %d distances" % len(dist), r if raised(r) else {"first-differing-merge": bad, "clusters-equal": list(r[1]) == list(eC)})
+            return
+        acc.ok(("big", n, form, len(set(eC))), nontrivial=True)
     elif kind == "tcr":
         tab = case[1]
         acc.cls("tcr-table")
